@@ -90,6 +90,7 @@ class ClobberLeg(object):
             "force": st.booleans(),
             "keep_open": st.booleans(),
             "old_emptied": st.sampled_from([False, False, True]),
+            "old_no_stats": st.sampled_from([False, False, True]),
         })
 
     def classify(self, case):
@@ -110,6 +111,10 @@ class ClobberLeg(object):
         if case.get("old_emptied"):
             # an existing database need not hold features any more: it still has directives, dialect and id counters
             db.delete([f.id for f in db.all_features()], make_backup=False)
+        if case.get("old_no_stats"):
+            # databases written by old gffutils versions have no ANALYZE statistics; FeatureDB opens them (with a warning)
+            db.execute("DROP TABLE IF EXISTS sqlite_stat1")
+            db.conn.commit()
         snap_old = dbsnap.snapshot(db)
         if not case["keep_open"]:
             db.conn.close()
@@ -175,7 +180,7 @@ class ReadsLeg(object):
             "strand": st.sampled_from([None, "+", "-"]),
             "order_by": st.sampled_from([None, "start", "length", ("seqid", "start"), "file_order"]),
             "reverse": st.booleans(),
-            "level": st.sampled_from([None, 1, 2]),
+            "level": st.sampled_from([None, 1, 2, 3, 5]),
             "limit": st.sampled_from([None, ("chr1", 1, 200), "chr1:50-400"]),
             "within": st.booleans(),
             "consume": st.sampled_from(["all", "all", "one"]),
